@@ -1,9 +1,12 @@
 import FlowRecordProofs.Lemmas.Msgpack
+import FlowRecordProofs.Lemmas.Envelope
+import FlowRecordProofs.Lemmas.Framing
+import FlowRecordProofs.Lemmas.StreamRoundtrip
 import FlowRecord.Model.Stream
 /-!
 C01 — record stream round-trip preserves every record exactly. Property theorems only.
 -/
-open FlowRecord FlowRecord.Msgpack
+open FlowRecord FlowRecord.Msgpack FlowRecord.Wire FlowRecord.Stream
 
 /-- M1: what the msgpack packer writes for any well-formed value tree (any depth, every size class, integers in
     [-2^63, 2^64)) is decoded back to exactly that value, with whatever follows it left untouched. -/
@@ -14,3 +17,60 @@ theorem C01_msgpack_roundtrip (v : MVal) (rest : Bytes) (hw : WF v) :
 /-- M1 at the document level: `unpackb (packb v) = v`. -/
 theorem C01_msgpack_document (v : MVal) (hw : WF v) : decode (enc v) = .ok v :=
   decode_enc v hw
+
+/-- R1, the packer layer: for every admissible packed-level value — None, booleans, integers of ANY size (native or
+    through the sign-magnitude big-integer envelope), float bit patterns, text in the image of
+    decode/surrogateescape, bytes, lists/tuples and dicts of these to any depth, timestamps in both encodings, and
+    records nested in records to any depth whose identifiers are bound to their own descriptors — what the packer
+    produces is unpacked to exactly that value, field for field. -/
+theorem C01_packed_roundtrip (reg : Registry) (pv : PV) (m : MVal) (hok : PVOK reg pv) (hm : toM pv = some m) :
+    fromM reg (need pv) m = .ok (rvOf pv) :=
+  fromM_toM reg pv m (need pv) hok hm (Nat.le_refl _)
+
+/-- … and through the bytes: encode the packed value, decode the document, unpack it. -/
+theorem C01_frame_roundtrip (reg : Registry) (pv : PV) (m : MVal) (hok : PVOK reg pv) (hm : toM pv = some m) :
+    (match decode (enc m) with
+     | .ok v => fromM reg (need pv) v
+     | _ => .error .invalid) = .ok (rvOf pv) := by
+  rw [decode_enc m (toM_WF reg pv m hok hm)]
+  exact fromM_toM reg pv m (need pv) hok hm (Nat.le_refl _)
+
+/-- Integers of any magnitude and sign survive the big-integer envelope (`neg`, big-endian magnitude). -/
+theorem C01_varint_any_size (i : Int) :
+    (if decide (i < 0) then -(beDec (magBytes i.natAbs) : Int) else (beDec (magBytes i.natAbs) : Int)) = i := by
+  rw [beDec_magBytes]
+  by_cases h : i < 0 <;> simp [h] <;> omega
+
+/-- C01 at the byte level, the composition of everything above (M1, framing, registry invariant, envelopes):
+    for EVERY admissible history of records — any number of records, any interleaving of descriptors (including
+    descriptors whose identifiers collide, as long as no single record tree holds two of them), records nested in
+    records to any depth, every value kind of `PVOK` — written by a fresh writer, the reader run over the BYTES of the
+    stream returns exactly the records written, same count, same order, each with its own descriptor and field for
+    field the values written, and then ends cleanly. `hashOf` is any identifier function on which reader and
+    writer agree. -/
+theorem C01_stream_roundtrip (hashOf : Utf8.PyStr → List (Utf8.PyStr × Utf8.PyStr) → Nat) (o : PV) (os : List PV)
+    (st' : WState) (frames : List Bytes)
+    (hw : writeAll WState.init (o :: os) = some (st', frames))
+    (hok : HistOK hashOf [] (o :: os)) (hsz : ∀ b ∈ frames, b.length < 4294967296) :
+    readAll hashOf (streamOf frames) = (rvOfList (o :: os), .eof) :=
+  readAll_writeAll hashOf o os st' frames hw hok hsz
+
+/-- the same for a writer that has already written its header and any earlier records (streams are appendable) -/
+theorem C01_stream_roundtrip_continued (hashOf : Utf8.PyStr → List (Utf8.PyStr × Utf8.PyStr) → Nat) (objs : List PV)
+    (st st' : WState) (frames : List Bytes) (fuel : Nat)
+    (hw : writeAll st objs = some (st', frames)) (hhdr : st.headerWritten = true)
+    (hok : HistOK hashOf st.registry objs) (hsz : ∀ b ∈ frames, b.length < 4294967296) :
+    readFramesH hashOf (fuel + frames.length) st.registry (streamOf frames) = (rvOfList objs, .eof) :=
+  read_writeAll hashOf objs st st' frames fuel hw hhdr hok hsz
+
+-- non-vacuity: a record with a big integer, text, a UTC timestamp and a nested list satisfies the hypotheses
+namespace C01_nonvacuous
+def d : Desc := { name := [116, 47, 120], fields := [([118], [110])], hash := 7 }
+def reg : Registry := [((d.name, d.hash), d)]
+def pv : PV := .record d [.int 1180591620717411303424, .str [97, 233], .dtUtc [2020, 1, 2, 3, 4, 5, 6], .seq [.none, .bool true]]
+example : (toM pv).isSome = true := by decide
+example : strOK [97, 233] := ⟨[97, 195, 169], by decide, by decide, by decide⟩
+example : PVOK reg (.seq [.none, .bool true, .int (-5), .bytes [1, 2]]) := by
+  simp only [PVOK, PVOKList, List.length_cons, List.length_nil]
+  refine ⟨by omega, trivial, trivial, Or.inl (by decide), by omega, trivial⟩
+end C01_nonvacuous
